@@ -105,6 +105,7 @@ def handCallback : List CbStmt := [.lock, .deferUnlock, .ifGenChangedReturn, .em
 `verifSched(p, n)` stands in front of the statement the program counter `n` is about to execute
 (`Model/ParserRunSched.lean : mainPoint / cbPoint`); the harness parks the goroutine there. -/
 
+def handRunHeadY : List RunStmt := [.deferYield 19]   -- `defer verifSched(p, 19)`: run has returned (reports a panic of run to a harness)
 def handRunLoopHeadY : List RunStmt := [.yield 10]
 def handRunDefaultY : List RunStmt :=
   [.callReadRune, .yield 11, .lock, .yield 12, .bumpGen, .yield 13, .anywhere, .yield 14, .ifNilUnlockBreak, .unlock]
